@@ -67,7 +67,8 @@ Definition frag_loaders : list (pstr * pstr) :=
    (s "SparseMatrixNode", s "_scipy.SparseMatrixNode"); (s "DTypeNode", s "_numpy.DTypeNode");
    (s "RandomStateNode", s "_numpy.RandomStateNode"); (s "RandomGeneratorNode", s "_numpy.RandomGeneratorNode");
    (s "MaskedArrayNode", s "_numpy.MaskedArrayNode"); (s "PartialNode", s "_general.PartialNode");
-   (s "OperatorFuncNode", s "_general.OperatorFuncNode")].
+   (s "OperatorFuncNode", s "_general.OperatorFuncNode"); (s "ObjectNode", s "_general.ObjectNode");
+   (s "ConstructorFromReduceNode", s "_general.ConstructorFromReduceNode")].
 Definition reg_ok (reg : registry) (cur : Z) : bool :=
   forallb (fun lt => match lookup reg cur (fst lt) (pkey cur) with Some t => pstr_eqb t (snd lt) | None => false end) frag_loaders.
 
@@ -269,6 +270,7 @@ Section Share.
   Hypothesis HFone : forall h x1 x2, In (h, x1) files -> In (h, x2) files -> fblob x1 = fblob x2.
   Hypothesis HEC : e_members E = map fst (c_members C).
   Hypothesis HCg : c_generic C = f_generic F.
+  Hypothesis HCh : c_hkinds C = f_hkinds F.
   Let proto : json := JInt (e_cur E).
 
   Lemma disp l tag : In (l, tag) frag_loaders -> dispatch (e_reg E) (e_cur E) (JStr l) proto = Ok (Some tag).
@@ -1308,15 +1310,20 @@ Section Share.
     (forall jx, dget (s "__id__") (flds jx) = None) ->
     (forall jx, file_table (node_state c mo l (flds jx) (pid v)) = file_table jx) ->
     (forall st, get_state D v st = do (jx, st1) <- get_state D x st; Ok (node_state c mo l (flds jx) (pid v), st1)) ->
-    (forall rec sl m jx, build E rec sl [] tag k m (node_state c mo l (flds jx) (pid v))
+    (forall rec sl m jx, (exists kv, jx = JObj kv) ->      (* the state of x is a JSON object (ObjectNode tests it against None) *)
+                         build E rec sl [] tag k m (node_state c mo l (flds jx) (pid v))
                          = do (h, m0) <- node_init sl k tag [] true m (node_state c mo l (flds jx) (pid v)) JNull;
                            do (n, m1) <- rec [] (SOne slot) m0 jx; Ok (Node h [n], m1)) ->
     (forall R cf sl n, construct_val C files R cf n = Ok x ->
        cbody C files (mkh sl k tag (pid v) c mo JNull) [n] (construct_val C files R cf) = Ok v) ->
     Q v.
   Proof.
-    intros Hv Hx Hsz Hnd Hl Hk Hf Hftf Hget Hbuild Hcons st j st' H Hb. rewrite Hget in H.
+    intros Hv Hx Hsz Hnd Hl Hk Hf Hftf Hget Hbuild0 Hcons st j st' H Hb. rewrite Hget in H.
     destruct (get_state D x st) as [[jx st1]|] eqn:Ex; [|discriminate]. cbn [bind] in H. injection H as <- <-.
+    assert (Hbuild : forall rec sl m, build E rec sl [] tag k m (node_state c mo l (flds jx) (pid v))
+                         = do (h, m0) <- node_init sl k tag [] true m (node_state c mo l (flds jx) (pid v)) JNull;
+                           do (n, m1) <- rec [] (SOne slot) m0 jx; Ok (Node h [n], m1)).
+    { intros rec sl m. apply Hbuild0. destruct (root_fields _ _ _ _ _ Ex) as [kv [-> _]]. eauto. }
     destruct (Hx _ _ _ Ex Hb) as [Hlate [Hnext [[Hlk [Hft Hmok]] HQx]]]. split; [exact Hlate|]. split; [exact Hnext|].
     split.
     { split; [exact Hlk|]. split; [|exact Hmok]. intros h x0 Hin. rewrite Hftf in Hin. exact (Hft h x0 Hin). }
@@ -1900,6 +1907,70 @@ Section Share.
     destruct x; try (subst c; reflexivity). destruct sc; try (subst c; reflexivity). reflexivity.
   Qed.
 
+  (* ---- user objects on the generic object path (object_get_state / ObjectNode / ConstructorFromReduceNode) ---- *)
+  (* the loader re-derives the hidden-payload kind from the class name: none for the classes of the fragment *)
+  Lemma hk_of_plain mo c : hk_of_facts F mo c = HKNone -> hk_of C mo c = HKNone.
+  Proof. unfold hk_of, hk_of_facts. rewrite HCh. auto. Qed.
+
+  Lemma gt_resolvable sl k tag id c mo : resolvable F mo c = true -> gt C (mkh sl k tag id c mo JNull) = Ok (mo, c).
+  Proof.
+    intros Hr. unfold resolvable in Hr. apply andb_prop in Hr. destruct Hr as [Hmiss Hne]. apply negb_true_iff in Hmiss.
+    apply gt_ok; [reflexivity|reflexivity| | |destruct HC as [_ ->]; exact Hmiss].
+    - destruct mo; [discriminate Hne|discriminate].
+    - destruct mo; [discriminate Hne|]. destruct c; [discriminate Hne|discriminate].
+  Qed.
+
+  (* __getstate__() / __dict__: the state (ANY value of the fragment) travels below "content"; ObjectNode builds
+     cls.__new__(cls) and hands the constructed state over *)
+  Lemma objstate_Q id mo c x : Objs (PObj id mo c HKNone [] OKState x) -> resolvable F mo c = true -> hk_of_facts F mo c = HKNone ->
+    Q x -> Q (PObj id mo c HKNone [] OKState x).
+  Proof.
+    intros Hv Hr Hhk Hx.
+    apply (single_Q (PObj id mo c HKNone [] OKState x) x c mo (CodecDump.K "ObjectNode") (fun jx => [(CodecDump.K "content", jx)])
+             (s "_general.ObjectNode") KObject (GetTree.K "attrs")); try assumption; try reflexivity;
+      try (cbn [size need]; lia); [cbn; tauto| | |].
+    { intros jx. rewrite ft_node_state by reflexivity. cbn [dget flat_map snd app]. change (pstr_eqb (s "file") (CodecDump.K "content")) with false.
+      cbn iota. rewrite app_nil_r. reflexivity. }
+    { intros rec sl m jx [kv ->]. reflexivity. }
+    intros R cf sl n Hn. cbn [pid]. unfold cbody. cbn [mkh h_kind]. fold (mkh sl KObject (s "_general.ObjectNode") id c mo JNull).
+    rewrite (gt_resolvable _ _ _ _ _ _ Hr). cbn [bind]. rewrite (hk_of_plain _ _ Hhk), nid_mkh.
+    destruct n as [hd subs|sl0 i0|sl0 lf].
+    - rewrite Hn. reflexivity.
+    - rewrite Hn. reflexivity.
+    - destruct cf; discriminate Hn.
+  Qed.
+
+  (* __reduce__() == (type(obj), args): the argument tuple travels below "content"; the loader calls the class on its items *)
+  Lemma objreduce_Q id mo c x : Objs (PObj id mo c HKNone [] OKReduce x) -> resolvable F mo c = true -> hk_of_facts F mo c = HKNone ->
+    (match x with PSeq _ _ _ _ _ _ => True | _ => False end) ->
+    Q x -> Q (PObj id mo c HKNone [] OKReduce x).
+  Proof.
+    intros Hv Hr Hhk Hseq Hx.
+    apply (single_Q (PObj id mo c HKNone [] OKReduce x) x c mo (CodecDump.K "ConstructorFromReduceNode") (fun jx => [(CodecDump.K "content", jx)])
+             (s "_general.ConstructorFromReduceNode") KCtorReduce (GetTree.K "content")); try assumption; try reflexivity;
+      try (cbn [size need]; lia); [cbn; tauto| |].
+    { intros jx. rewrite ft_node_state by reflexivity. cbn [dget flat_map snd app]. change (pstr_eqb (s "file") (CodecDump.K "content")) with false.
+      cbn iota. rewrite app_nil_r. reflexivity. }
+    intros R cf sl n Hn. cbn [pid]. unfold cbody. cbn [mkh h_kind]. fold (mkh sl KCtorReduce (s "_general.ConstructorFromReduceNode") id c mo JNull).
+    rewrite (gt_resolvable _ _ _ _ _ _ Hr). cbn [bind]. rewrite Hn. cbn [bind]. rewrite (hk_of_plain _ _ Hhk), nid_mkh.
+    destruct x; try contradiction. reflexivity.
+  Qed.
+
+  (* neither __getstate__ nor __dict__: no "content"; ObjectNode keeps None as its child and builds cls.__new__(cls) only *)
+  Lemma objnostate_Q id mo c : Objs (PObj id mo c HKNone [] OKNoState pnone) -> resolvable F mo c = true -> hk_of_facts F mo c = HKNone ->
+    Q (PObj id mo c HKNone [] OKNoState pnone).
+  Proof.
+    intros Hv Hr Hhk st j st' H Hb. cbn [get_state] in H. injection H as <- <-. split; [reflexivity|]. split; [lia|]. split; [apply Post_same; reflexivity|].
+    intros fuel0 m0 sl0 Hn0 Hm0 _; revert fuel0 m0 sl0 Hn0 Hm0.
+    apply (leaf_Q (PObj id mo c HKNone [] OKNoState pnone) _ _ _ _ (s "_general.ObjectNode") KObject (fun h => h) [Leaf (SOne (GetTree.K "attrs")) LNone]);
+      try assumption; try reflexivity; try lia.
+    - cbn; tauto.
+    - intros h. split; reflexivity.
+    - intros x [<-|[]]. eauto.
+    - intros R cf sl. cbn [pid]. unfold cbody. cbn [mkh h_kind]. fold (mkh sl KObject (s "_general.ObjectNode") id c mo JNull).
+      rewrite (gt_resolvable _ _ _ _ _ _ Hr). cbn [bind]. rewrite (hk_of_plain _ _ Hhk), nid_mkh. reflexivity.
+  Qed.
+
   Lemma minR_steps m ns m1 R : minR m R -> (forall x, In x ns -> sub x R) -> grow m ns m1 -> minR m1 R.
   Proof.
     intros Hm Hs Hg h Hh. destruct (Hg h Hh) as [H|H]; [auto|]. apply in_flat_map in H. destruct H as [x [Hx Hh']].
@@ -2231,6 +2302,16 @@ Section Share.
     | PRandState _ mo c x => resolvable F mo c = true /\ vok x
     | PRandGen _ mo c bg ss => resolvable F mo c = true /\ vok bg /\ vok ss
     | PPartial _ mo c f a k n => mo = s "functools" /\ c = s "partial" /\ partial_ok a k /\ vok f /\ vok a /\ vok k /\ vok n
+    | PObj _ mo c hk hidden ok x =>
+        (* user objects: a class whose name resolves and that has no hidden payload; the state / the argument tuple is any
+           value of the fragment *)
+        hk = HKNone /\ hidden = [] /\ resolvable F mo c = true /\ hk_of_facts F mo c = HKNone
+        /\ match ok with
+           | OKState => vok x
+           | OKReduce => (match x with PSeq _ _ _ _ _ _ => True | _ => False end) /\ vok x
+           | OKNoState => x = pnone
+           | OKRaise _ => False
+           end
     | _ => False
     end.
 
@@ -2272,7 +2353,11 @@ Section Share.
     - intros id mo c f a k n IHf IHa IHk IHn [Ho [-> [-> [Hok [Hf [Ha [Hk0 Hn0]]]]]]]. apply partial_Q; auto.
     - intros id c a IHa [Ho [Hr [Hok Hva]]]. apply opfunc_Q; try assumption. apply IHa. exact Hva.
     - intros; cbn [vok] in *; tauto.
-    - intros; cbn [vok] in *; tauto.
+    - intros id mo c hk h ok x _ IHx [Ho [-> [-> [Hr [Hhk Hok]]]]]. destruct ok as [| | |e].
+      + destruct Hok as [Hseq Hvx]. apply objreduce_Q; auto.
+      + apply objstate_Q; auto.
+      + subst x. apply objnostate_Q; auto.
+      + contradiction.
   Qed.
 
   (* closing the loop: in the root tree every memoised id of an object resolves to a node constructing it *)
